@@ -109,3 +109,10 @@ U("c13_scan_file_reads_whole", ["C13", "C06"], "h_scan_file", ["C13/scan_file.c"
   functions=["scan_file"],
   callees={"fopen, fread, fclose": "contract stubs over a ghost file (any chunking)", "d_string_*": "executable specification lib/ds_sink.c (C19; the real d_string_append_c_array under a symbolic length from a 4096-byte chunk ran out of memory)", "strncmp": "CBMC built-in"},
   min_obligations=10, timeout=300, cost=20, assumptions=[NOFAIL, "POSIX branch of scan_file (the build's configuration)"])
+
+# ---- stdin_buffer: the same contract as scan_file ("cat f | multimarkdown" sees what "multimarkdown f" sees; finding 37, fixed in /repo 69682d3)
+U("c06_stdin_buffer_reads_whole", ["C06"], "h_scan_file", ["C13/scan_file.c"], ["file.c"], plain=True, lib=("lib/ds_sink.c",), kind="bounded",
+  defines=["-DFLMAX=5", "-DSINK_CAP=12", "-DSTDIN"], cbmc_flags=["--unwind", "14", "--unwinding-assertions"], bounds={"input length<=": 5, "chunking": "any", "unwind": 14},
+  functions=["stdin_buffer"],
+  callees={"fread, fclose": "contract stubs over a ghost stream (any chunking)", "d_string_*": "executable specification lib/ds_sink.c (C19)", "strncmp": "CBMC built-in"},
+  min_obligations=10, timeout=300, cost=20, assumptions=[NOFAIL])
